@@ -893,6 +893,13 @@ def units_check(ctx, f, cell_params, floor: int = 1):
     from ..index import norm, short, walk_local
     aliases = alias_map(f.node)
     unit = {p: "cells" for p in cell_params}
+    # names that hold a LIST of pieces (their len() is a number of pieces, not of characters)
+    list_names = set()
+    for x in walk_local(f.node):
+        if isinstance(x, _ast.Assign) and len(x.targets) == 1 and isinstance(x.targets[0], _ast.Name):
+            v_ = x.value
+            if isinstance(v_, (_ast.List, _ast.ListComp, _ast.Tuple)) or (isinstance(v_, _ast.Call) and (norm(v_.func) in ("list", "tuple", "sorted") or (isinstance(v_.func, _ast.Attribute) and v_.func.attr in ("split", "splitlines", "divide", "rsplit")))):
+                list_names.add(x.targets[0].id)
 
     def u(e):
         if isinstance(e, _ast.Constant):
@@ -906,6 +913,8 @@ def units_check(ctx, f, cell_params, floor: int = 1):
             if cn.split(".")[-1] in ("cell_len", "get_character_cell_size"):
                 return "cells"
             if cn == "len":
+                if e.args and ((isinstance(e.args[0], _ast.Name) and e.args[0].id in list_names) or (isinstance(e.args[0], _ast.Attribute) and e.args[0].attr.startswith("_lines"))):
+                    return None
                 return "chars"
             if cn in ("min", "max") and e.args:
                 us = {u(a) for a in e.args} - {"const", None}
